@@ -58,6 +58,14 @@ def meaning_node(n) -> Dict[str, Any]:
         variables = {vname(sw): {"values": [int(x) if sw.get("ints") else float(x) for x in sw["vals"]]}}
         if sw.get("ctx2"):
             variables.update({"u": {"from_context": "ku"}, "w": {"from_context": "kw"}})
+        rg = sw.get("rng") or {}
+        if rg.get("on"):
+            r = {"lo": float(rg["lo"]), "hi": float(rg["hi"]), "steps": int(rg["steps"])}
+            if rg["expl"] or not rg["endp"]:
+                r["endpoint"] = bool(rg["endp"])
+            if rg["expl"] or rg["log"]:
+                r["scale"] = "log" if rg["log"] else "linear"
+            variables["r"] = r
         out["derive"] = {"parameter_sweep": {"parameters": {swept_param(n["proc"]): expr_text(sw["expr"], vname(sw))},
                                              "variables": variables,
                                              "mode": sw["mode"], "broadcast": bool(sw["bc"]), "collection": sw["coll"]}}
@@ -73,7 +81,8 @@ def render(cfg: List[Dict[str, Any]]) -> str:
             lines.append(f"    - *n{int(n['alias'])}")
             continue
         node_start = len(lines)
-        proc = f'"{n["proc"]}"' if n["quoted"] else n["proc"]
+        q = "'" if '"' in n["proc"] else '"'          # template:"...":key holds double quotes itself
+        proc = f'{q}{n["proc"]}{q}' if n["quoted"] else n["proc"]
         first = f"    - processor: {proc}"
         body: List[str] = []
         if n["ps"]:
@@ -110,6 +119,14 @@ def render(cfg: List[Dict[str, Any]]) -> str:
                 if sw.get("vorder"):
                     extra.reverse()
                 vtxt = ", ".join(([extra[0], vtxt, extra[1]]) if sw.get("vorder") else ([vtxt] + extra))
+            rg = sw.get("rng") or {}
+            if rg.get("on"):
+                parts = [f"lo: {float(rg['lo']):.1f}", f"hi: {float(rg['hi']):.1f}", f"steps: {int(rg['steps'])}"]
+                if rg["expl"] or not rg["endp"]:
+                    parts.append(f"endpoint: {'true' if rg['endp'] else 'false'}")
+                if rg["expl"] or rg["log"]:
+                    parts.append(f"scale: {'log' if rg['log'] else 'linear'}")
+                vtxt += ", r: {" + ", ".join(parts) + "}"
             body += ["      derive:", "        parameter_sweep:",
                      f"          parameters: {{{swept_param(n['proc'])}: \"{expr_text(sw['expr'], vname(sw))}\"}}",
                      f"          variables: {{{vtxt}}}",
